@@ -1,5 +1,6 @@
 import BarterModel.Lemmas.ExecMap
 import BarterModel.Lemmas.Review2_C04
+import BarterModel.Lemmas.KernelsAgree.ExecMapSM
 /-!
 # C04 — Engine indices and exchange names translate both ways without mix-ups
 
@@ -828,5 +829,29 @@ example : ∃ m, genMap exampleColl 10 = .ok m ∧
     (accountEvent m ⟨10, .orderSnapshot ⟨⟨10, 7, 5⟩, 9,
         .openFailed (.rejected (.balanceInsufficient 2))⟩⟩).toOption.map (·.exchange) = some 0 :=
   ⟨_, rfl, rfl⟩
+
+/-- **Tie to the source by translation: the execution instrument map.** `ExecutionInstrumentMap::{new, exchange_assets,
+exchange_instruments, find_exchange_id, find_exchange_index, find_asset_name_exchange, find_asset_index,
+find_instrument_name_exchange, find_instrument_index}`, `generate_execution_instrument_map` (barter-execution/src/map.rs),
+`IndexedInstruments` with its `exchanges()` / `assets()` / `instruments()` accessors, `Keyed`, the index newtypes, `Asset`,
+`ExchangeAsset`, the full `Instrument`, `IndexError`, `KeyError`, and of barter-execution/src/indexer.rs the four leaf
+translations `AccountEventIndexer::{order_key, order_request, asset_balance, trade}` are regenerated from the current
+source by `tools/rust2lean_sm.py` on every run (`Generated/Machines4.lean`, group `exec_map`); their iterator chains
+(`iter().map(..).collect()`, `find_map`, `filter_map(.. then_some ..).collect()`) are read through the translator's
+iterator vocabulary: an iterator is the list of its items, `collect` into an `IndexMap` inserts in order (value replaced
+in place, position of the first occurrence, last value wins: indexmap's documented `FromIterator`), `collect` into a
+`FnvHashMap` is the same finite map (Lemmas/KernelsAgree/IterVocab.lean). For ALL collections, maps, keys and names, with
+NO hypothesis: read through `ofColl` (per entry: key number, exchange id, `name_exchange`) and the relation `Rel` —
+EQUALITY of the exchange pair and of the two forward `IndexMap`s position by position, equality AS FINITE MAPS of the two
+reverse `FnvHashMap`s (`get` = the model's `lookup`, for every name) — the generated constructor establishes `Rel` with
+the model's `EMap.new`, `generate_execution_instrument_map` fails exactly when `genMap` fails (same error kind) and
+otherwise yields `Rel`ated maps, under `Rel` each `find_*` returns the model's answer (error messages are not modelled),
+the four indexer functions are the model's `orderKey` / `orderRequest` / `assetBalance` / `trade` for EVERY coding of the
+fields the model lumps into a payload, and every model map is `Rel`ated to a generated one. `genMap`, `EMap.find*`,
+`orderRequest`, `orderKey` are the definitions every theorem of this file is about. The statement is that of
+`KernelsAgree.ExecMapSM.exec_map_agrees` (Lemmas/KernelsAgree/ExecMapSM.lean). -/
+theorem execution_map_agrees_with_source :
+    type_of% BarterModel.KernelsAgree.ExecMapSM.exec_map_agrees :=
+  BarterModel.KernelsAgree.ExecMapSM.exec_map_agrees
 
 end BarterModel.Props.C04
